@@ -161,19 +161,21 @@ func (c Chunker) Split(total int, bounds []int) []int {
 
 // Reader drives net.Conn.Read of one endpoint and accumulates what it delivered.
 type Reader struct {
-	Conn  net.Conn
-	SC    *vlib.ScriptConn
-	op    *vlib.Op
-	buf   []byte
-	n     int
-	err   error
-	Got   []byte
-	Err   error   // the error the last Drain stopped at
-	Errs  []error // earlier errors (see Resume)
-	ErrN  int     // bytes returned together with that error
-	Panic interface{}
-	Stuck bool // the call neither finished nor blocked in the underlying Read
-	Reads int
+	Conn   net.Conn
+	SC     *vlib.ScriptConn
+	op     *vlib.Op
+	buf    []byte
+	bufLen int
+	n      int
+	err    error
+	Got    []byte
+	Err    error   // the error the last Drain stopped at
+	Errs   []error // earlier errors (see Resume)
+	ErrN   int     // bytes returned together with that error
+	ErrBuf int     // len(buf) of the Read call that returned that error
+	Panic  interface{}
+	Stuck  bool // the call neither finished nor blocked in the underlying Read
+	Reads  int
 }
 
 // Drain issues Read calls (buffer sizes from next) until one is blocked on the network with
@@ -189,6 +191,7 @@ func (r *Reader) Drain(next func() int) (blocked bool) {
 				r.buf = make([]byte, n)
 			}
 			b := r.buf[:n]
+			r.bufLen = n
 			r.op = r.SC.Start(func() { r.n, r.err = r.Conn.Read(b) })
 		}
 		fin, stuck := r.SC.WaitT(r.op, 20*time.Second)
@@ -210,6 +213,7 @@ func (r *Reader) Drain(next func() int) (blocked bool) {
 		if r.err != nil {
 			r.Err = r.err
 			r.ErrN = r.n
+			r.ErrBuf = r.bufLen
 			return false
 		}
 	}
@@ -515,6 +519,22 @@ func (p *Pair) Fail(dir int, cls string) {
 	default:
 		p.Conn[receiver(dir)].FeedEOF()
 	}
+}
+
+func netErr(cls string) error {
+	switch cls {
+	case "timeout":
+		return vlib.TimeoutError{}
+	case "other":
+		return &net.OpError{Op: "read", Net: "tcp", Err: errors.New("connection reset by peer")}
+	}
+	return io.EOF
+}
+
+// FailWith makes ONE Read of the receiver of direction dir return the final chunk TOGETHER
+// with the network error (n > 0 and err != nil from the same call), after the queued data.
+func (p *Pair) FailWith(dir int, chunk []byte, cls string) {
+	p.Conn[receiver(dir)].FeedWithErr(chunk, netErr(cls))
 }
 
 // Reader returns the reader of direction dir.
